@@ -49,6 +49,33 @@ def judgeStruct (members : List String) : List (Dict × Dict) → Nat → Option
   | [], _ => none
   | (st, mem) :: rest, i => if membersAgreeB members st mem then judgeStruct members rest (i + 1) else some i
 
+/-- what is recorded about the error states after one operation on a module with a struct parameter -/
+structure SInfo where
+  ok : Bool := true             -- the operation returned (a request was answered without error, a call did not raise)
+  announced : Bool := false     -- a VALUE of the struct parameter was announced during the operation (update message)
+  flagged : List String := []   -- the members that are in error state (`readerror`) or were never announced, afterwards
+  deriving Repr, DecidableEq, Inhabited
+
+/-- agreement "member by member" extends to the error state: an operation that returned and during which the module
+announced a valid value of the struct leaves no member in error state — a member that failed earlier (a failed read of the
+member, an error announced for it) recovers together with the struct, whether its value has changed or not -/
+def MembersRecovered (members : List String) (r : SInfo) : Prop :=
+  r.ok = true → r.announced = true → ∀ m ∈ members, m ∉ r.flagged
+
+instance (members : List String) (r : SInfo) : Decidable (MembersRecovered members r) :=
+  inferInstanceAs (Decidable (r.ok = true → r.announced = true → ∀ m ∈ members, m ∉ r.flagged))
+
+def membersRecoveredB (members : List String) (r : SInfo) : Bool := decide (MembersRecovered members r)
+
+/-- the monitor for one record: values and error states -/
+def structRecOkB (members : List String) (e : Dict × Dict × SInfo) : Bool :=
+  membersAgreeB members e.1 e.2.1 && membersRecoveredB members e.2.2
+
+/-- index of the first record that breaks one of the two clauses -/
+def judgeStructR (members : List String) : List (Dict × Dict × SInfo) → Nat → Option Nat
+  | [], _ => none
+  | e :: rest, i => if structRecOkB members e then judgeStructR members rest (i + 1) else some i
+
 /-! ## float parameter bound to an enumerated index -/
 
 /-- "always shows the value belonging to the current index" -/
